@@ -218,7 +218,8 @@ def history(draw):
             fv = draw(st.sampled_from(["equal", "equal", "reordered", "nullability", "type", "extra"]))
             ex = [f for f in fields]
             rows = draw(tbl.rows_for(ex, 1, 3, null_p=False))
-            steps.append({"op": "file", "fresh": fresh, "variant": fv, "rows": rows, "klass": []})
+            # the record count the CALLER declares for its pre-built file is not checked against the file: whatever it says, an accepted file's rows are the file's rows
+            steps.append({"op": "file", "fresh": fresh, "variant": fv, "rows": rows, "klass": [], "count": draw(st.sampled_from(["exact", "exact", 0, 1, 10**6]))})
     if draw(st.integers(0, 11)) == 0 and not schemaless:
         # state carried by a long-lived handle: an accepted sparse batch (optional column omitted / NULL), then an unrepresentable value in it
         opt = [f for f in fields if not f.get("required") and WRONG.get(f["type"])]
@@ -287,7 +288,7 @@ def _arrow_type(t):
             "uuid": pa.string(), "binary": pa.binary()}[t]
 
 
-def _write_external(root, n, fields, rows, variant):
+def _write_external(root, n, fields, rows, variant, count="exact"):
     import pyarrow as pa
     import pyarrow.parquet as pq
     from datashard import DataFile, FileFormat
@@ -314,7 +315,7 @@ def _write_external(root, n, fields, rows, variant):
     os.makedirs(os.path.dirname(p), exist_ok=True)
     pq.write_table(tb, p)
     sig = [(f["name"], f["type"], bool(f.get("required", False))) for f in F]
-    return DataFile(file_path="/" + rel, file_format=FileFormat.PARQUET, partition_values={}, record_count=len(R),
+    return DataFile(file_path="/" + rel, file_format=FileFormat.PARQUET, partition_values={}, record_count=len(R) if count in (None, "exact") else count,
                     file_size_in_bytes=os.path.getsize(p)), tb.to_pylist(), sig
 
 
@@ -402,7 +403,9 @@ def check_history(case):
                 out["labels"].append("files")
                 out["labels"].append(f"file:{variant}")
                 out["nontrivial"] = True
-                df, expected_rows, sig = _write_external(root, n, fields, step["rows"], variant)
+                df, expected_rows, sig = _write_external(root, n, fields, step["rows"], variant, step.get("count", "exact"))
+                if step.get("count", "exact") != "exact":
+                    out["labels"].append("file-declared-count-differs")
                 try:
                     t.append_data([df])
                     ok, exc = True, None
